@@ -12,7 +12,7 @@ rel() {
     C13) echo "C13" ;; C14) echo "C14 C05" ;; C15) echo "C15" ;; C16) echo "C16 C13" ;; C17) echo "C17 C18" ;; C18) echo "C18 C17" ;;
   esac
 }
-for d in /verif/seeded/C[0-9][0-9][a-z]; do
+for d in /verif/seeded/${SEED_GLOB:-C[0-9][0-9][a-z]}; do
   n=$(basename "$d")
   p=$(echo "$n" | cut -c1-3)
   if [ "${ALL:-0}" = 1 ]; then checks=""; else checks=$(rel "$p"); fi
